@@ -184,6 +184,7 @@ type HistEvent struct {
 
 // StressResult is what one run observed.
 type StressResult struct {
+	PrevWalks int64 // SnapshotPrevious steps taken by the extras goroutine
 	Violation string
 	Class     string
 	Detail    string
@@ -658,6 +659,33 @@ func runStress(p StressParams, scratch string, idx int) *StressResult {
 							it.Current()
 							it.Next()
 							it.Close()
+						}
+						if i%5 == 0 {
+							// walk the store's history a few footers back
+							// while the persister keeps appending to the file
+							cur, own := s, false
+							for d := 0; d < 3 && cur != nil; d++ {
+								prev, err := e.Store.SnapshotPrevious(cur)
+								if own {
+									cur.Close()
+								}
+								if err != nil || prev == nil {
+									cur, own = nil, false
+									break
+								}
+								prev.Get(wkey(0, "m"), moss.ReadOptions{})
+								if p.Children > 0 {
+									if cs, err := prev.ChildCollectionSnapshot(childName(0)); err == nil && cs != nil {
+										cs.Get(wkey(0, "m"), moss.ReadOptions{})
+										cs.Close()
+									}
+								}
+								cur, own = prev, true
+								atomic.AddInt64(&res.PrevWalks, 1)
+							}
+							if own && cur != nil {
+								cur.Close()
+							}
 						}
 						s.Close()
 					}
